@@ -16,12 +16,18 @@ import (
 // world is one generated backend content plus the client calls made on it
 // (real client <-> real handler <-> recording backend double).
 type world struct {
-	Proto     string  `json:"proto"`
+	Proto string `json:"proto"`
+	// Mount is Handler.Prefix as configured ("" = none; may be spelled with a
+	// trailing slash); every backend path lies below it. Base is the path of
+	// the client's endpoint ("" = "/").
+	Mount     string  `json:"mount,omitempty"`
+	Base      string  `json:"base,omitempty"`
 	Principal string  `json:"principal"`
 	Home      string  `json:"home"`
 	Colls     []nColl `json:"colls"`
 	Objs      []nObj  `json:"objs"`
 	GetIdx    []int   `json:"get,omitempty"`
+	GetRel    bool    `json:"get_rel,omitempty"` // Get...Object names the object relative to the endpoint
 	// multiget whose hrefs all succeed / whose hrefs mix success and failure
 	MGColl   string   `json:"mg_coll"`
 	MGPaths  []string `json:"mg_paths,omitempty"`
@@ -33,6 +39,8 @@ type world struct {
 	PutRel  bool   `json:"put_rel,omitempty"` // the client call spells PutPath relative to the endpoint
 	PutObj  nObj   `json:"put_obj"`
 	PutRes  nObj   `json:"put_res"`
+	// one multiget REPORT written by the harness in this request form (rawreport.go)
+	RawForm string `json:"raw_form,omitempty"`
 }
 
 func (w *world) obj(path string) *nObj {
@@ -82,6 +90,14 @@ func genObject(c *fw.Ctx, g *gen, proto, path string) nObj {
 	}
 }
 
+// under names a member of a collection, however the collection is spelled.
+func under(coll, seg string) string {
+	if strings.HasSuffix(coll, "/") {
+		return coll + seg
+	}
+	return coll + "/" + seg
+}
+
 func genWorld(c *fw.Ctx, g *gen, proto string) *world {
 	w := &world{Proto: proto}
 	ext := ".ics"
@@ -89,25 +105,72 @@ func genWorld(c *fw.Ctx, g *gen, proto string) *world {
 	if proto == "carddav" {
 		ext, homeSeg = ".vcf", "contacts"
 	}
+	// A third of the worlds are mounted below a Handler.Prefix (mount.go); in
+	// half of these the names below the prefix are related to its spelling.
+	mount, related := "", false
+	if g.chance(3) {
+		mount = g.mount(proto)
+		w.Mount = mount
+		g.feat("layout:mounted")
+		if g.chance(3) {
+			w.Mount += "/"
+			g.feat("mount:prefix-spelled-with-trailing-slash")
+		}
+		if g.chance(2) {
+			w.Base = mount + "/"
+			g.feat("layout:endpoint-at-mount")
+		}
+		related = g.chance(2)
+	}
+	// nameSeg: in related worlds every other name comes from the mount's spelling
+	nameSeg := func(hostile bool, used map[string]bool, suffix string, oneIn int) string {
+		if related && g.chance(oneIn) {
+			return g.mountSeg(mount, used, suffix)
+		}
+		return g.uniqueSeg(hostile, used, suffix)
+	}
 	hostileLayout := g.chance(5)
-	if hostileLayout {
+	switch {
+	case related:
+		w.Principal = mount + "/" + nameSeg(false, map[string]bool{}, "", 1) + "/"
+		if g.chance(2) {
+			w.Home = w.Principal + nameSeg(false, map[string]bool{}, "", 1) + "/"
+		} else {
+			w.Home = w.Principal + homeSeg + "/"
+		}
+		g.feat("layout:names-related-to-mount")
+	case hostileLayout:
 		used := map[string]bool{}
-		w.Principal = "/" + g.uniqueSeg(true, used, "") + "/"
+		w.Principal = mount + "/" + g.uniqueSeg(true, used, "") + "/"
 		w.Home = w.Principal + g.uniqueSeg(true, used, "") + "/"
 		g.feat("layout:hostile-home")
-	} else {
-		w.Principal = "/u/"
-		w.Home = "/u/" + homeSeg + "/"
+	default:
+		w.Principal = mount + "/u/"
+		w.Home = mount + "/u/" + homeSeg + "/"
 	}
 	hostile := g.r.Intn(3) > 0
 	used := map[string]bool{}
+	// "Any path": a quarter of the worlds hold paths of other shapes than
+	// home/collection/ and collection/object.
+	shapes := g.chance(4)
+	usedX := map[string]bool{}
 	ncoll := g.r.Intn(4)
 	if ncoll == 0 && !g.chance(4) {
 		ncoll = 1
 	}
 	var okIdx, failIdx []int
 	for i := 0; i < ncoll; i++ {
-		col := nColl{Path: w.Home + g.uniqueSeg(hostile, used, "") + "/", Name: g.text("name"), Desc: g.text("desc"), Max: g.maxSize()}
+		col := nColl{Path: w.Home + nameSeg(hostile, used, "", 3) + "/", Name: g.text("name"), Desc: g.text("desc"), Max: g.maxSize()}
+		if shapes {
+			switch g.r.Intn(4) {
+			case 0: // the backend spells the collection without a trailing slash
+				col.Path = strings.TrimSuffix(col.Path, "/")
+				g.feat("shape:collection-without-trailing-slash")
+			case 1: // a collection the backend lists from outside the home set
+				col.Path = mount + "/shared/" + strings.TrimPrefix(col.Path, w.Home)
+				g.feat("shape:collection-outside-the-home-set")
+			}
+		}
 		if proto == "caldav" {
 			col.HasComps, col.Comps = g.compSet()
 		} else {
@@ -117,7 +180,18 @@ func genWorld(c *fw.Ctx, g *gen, proto string) *world {
 		usedO := map[string]bool{}
 		nobj := g.r.Intn(4)
 		for j := 0; j < nobj; j++ {
-			o := genObject(c, g, proto, col.Path+g.uniqueSeg(hostile, usedO, ext))
+			op := under(col.Path, nameSeg(hostile, usedO, ext, 4))
+			if shapes && g.chance(3) {
+				switch g.r.Intn(2) {
+				case 0: // deeper than a direct member
+					op = under(col.Path, "sub/"+g.uniqueSeg(hostile, usedO, ext))
+					g.feat("shape:object-below-a-sub-path")
+				case 1: // held somewhere else altogether
+					op = mount + "/shared/objects/" + g.uniqueSeg(hostile, usedX, ext)
+					g.feat("shape:object-outside-the-collection")
+				}
+			}
+			o := genObject(c, g, proto, op)
 			okIdx = append(okIdx, len(w.Objs))
 			w.Objs = append(w.Objs, o)
 		}
@@ -126,7 +200,7 @@ func genWorld(c *fw.Ctx, g *gen, proto string) *world {
 			for j := 0; j < nf; j++ {
 				code := []int{403, 404, 500, 1, 423, 404, 499, 599, 420}[g.r.Intn(9)]
 				failIdx = append(failIdx, len(w.Objs))
-				w.Objs = append(w.Objs, nObj{Path: col.Path + g.uniqueSeg(hostile, usedO, ext), Fail: code})
+				w.Objs = append(w.Objs, nObj{Path: under(col.Path, g.uniqueSeg(hostile, usedO, ext)), Fail: code})
 			}
 		}
 	}
@@ -140,6 +214,12 @@ func genWorld(c *fw.Ctx, g *gen, proto string) *world {
 		if k < 3 {
 			w.GetIdx = append(w.GetIdx, okIdx[pi])
 		}
+	}
+	// A quarter of the worlds name the object of a Get relative to the client's
+	// endpoint; the value handed back must still carry the backend's path.
+	if len(w.GetIdx) > 0 && g.chance(4) {
+		w.GetRel = true
+		g.feat("get:relative-name")
 	}
 	if len(okIdx) > 0 {
 		n := 1 + g.r.Intn(len(okIdx))
@@ -181,7 +261,7 @@ func genWorld(c *fw.Ctx, g *gen, proto string) *world {
 			w.QResult = append(w.QResult, okIdx[pi])
 		}
 	}
-	w.PutPath = collPath + g.uniqueSeg(hostile, map[string]bool{}, ext)
+	w.PutPath = under(collPath, g.uniqueSeg(hostile, map[string]bool{}, ext))
 	w.PutObj = genObject(c, g, proto, w.PutPath)
 	w.PutObj.ETag, w.PutObj.Mod, w.PutObj.Len = "", time.Time{}, 0
 	w.PutRes = nObj{ETag: g.etag(), Mod: g.instant()}
@@ -193,7 +273,7 @@ func genWorld(c *fw.Ctx, g *gen, proto string) *world {
 	case 0:
 		g.feat("put:backend-returns-no-path")
 	case 1:
-		w.PutRes.Path = collPath + g.uniqueSeg(true, map[string]bool{}, ext)
+		w.PutRes.Path = under(collPath, g.uniqueSeg(true, map[string]bool{}, ext))
 		g.feat("put:backend-renames")
 	default:
 		w.PutRes.Path = w.PutPath
@@ -201,9 +281,14 @@ func genWorld(c *fw.Ctx, g *gen, proto string) *world {
 	// A third of the PUTs name the object relative to the client's endpoint
 	// ("u/cal/c/o.ics" against http://dav.example/): the client must still hand
 	// back the backend's (absolute) path. Only when the backend names a path.
-	if w.PutRes.Path != "" && !strings.Contains(w.PutPath, "/../") && !strings.Contains(w.PutPath, "/./") && !strings.Contains(w.PutPath, "//") && g.r.Intn(3) == 0 {
+	// In mounted worlds whose client endpoint is the mount point the name is
+	// relative to that.
+	if w.PutRes.Path != "" && w.relOK(w.PutPath) && g.r.Intn(3) == 0 {
 		w.PutRel = true
 		g.feat("put:relative-name")
+	}
+	if len(w.MGPaths)+len(w.MG2Paths) > 0 {
+		w.RawForm = g.pick(rawForms)
 	}
 	return w
 }
@@ -736,9 +821,13 @@ func runWorld(c *fw.Ctx, w *world) {
 		return
 	}
 	k := &chk{c: c, st: st, kind: "srv", cs: w, proto: w.Proto}
+	c.Observe("handler configuration of the server worlds", w.Proto+": "+w.mountClass(), 1)
+	if w.Mount != "" {
+		c.Observe("handler configuration of the server worlds", fmt.Sprintf("%s: Prefix spelled with a trailing slash: %v; client endpoint at the mount point: %v", w.Proto, strings.HasSuffix(w.Mount, "/"), w.Base != ""), 1)
+	}
 	k.checkFind(w)
 	for _, i := range w.GetIdx {
-		k.checkGet(&w.Objs[i])
+		k.checkGet(w, &w.Objs[i])
 	}
 	if len(w.MGPaths) > 0 {
 		k.checkMultiget(w, w.MGPaths)
@@ -753,6 +842,16 @@ func runWorld(c *fw.Ctx, w *world) {
 			k.checkMultigetAt(w, o.Path, nil)
 			break
 		}
+	}
+	if w.RawForm != "" {
+		paths := w.MG2Paths
+		if len(paths) == 0 {
+			paths = w.MGPaths
+		}
+		if len(paths) > 8 {
+			paths = paths[:8]
+		}
+		k.checkRawMultiget(w, paths, w.RawForm)
 	}
 	k.checkQuery(w)
 	k.checkPut(w)
@@ -893,12 +992,17 @@ func (k *chk) compareCollLists(group, op string, want []nColl, ms *davx.MultiSta
 
 // --- GET ---
 
-func (k *chk) checkGet(o *nObj) {
+func (k *chk) checkGet(w *world, o *nObj) {
 	const group = "get"
 	op := map[string]string{"caldav": "GetCalendarObject", "carddav": "GetAddressObject"}[k.proto]
 	var got *nObj
 	var err error
-	if !k.guard(group, op, func() { got, err = k.st.get(o.Path) }) {
+	callPath := o.Path
+	if w.GetRel && w.relOK(o.Path) {
+		callPath = w.rel(o.Path)
+		k.c.Observe("object named relative to the endpoint", k.proto+" "+op, 1)
+	}
+	if !k.guard(group, op, func() { got, err = k.st.get(callPath) }) {
 		return
 	}
 	k.observeCall(op, err, false)
@@ -936,6 +1040,76 @@ func (k *chk) checkGet(o *nObj) {
 
 func (k *chk) checkMultiget(w *world, paths []string) { k.checkMultigetAt(w, w.MGColl, paths) }
 
+// wireMultiget judges one multiget answer against the hrefs of its request:
+// one response per requested href, in request order, the object (read by
+// read) or the backend's own status.
+func (k *chk) wireMultiget(w *world, group, op string, ms *davx.MultiStatus, paths []string, read func(*davx.Response, *nObj) (map[string]string, *nObj)) (wireOK bool, wireFields []map[string]string, wireObjs []*nObj) {
+	wireOK = true
+	var rp []string
+	for i := range ms.Responses {
+		p := ""
+		if len(ms.Responses[i].Paths) == 1 {
+			p = ms.Responses[i].Paths[0]
+		}
+		rp = append(rp, p)
+	}
+	_, problem, at := matchPaths(paths, rp)
+	switch problem {
+	case "count":
+		wireOK = false
+		k.report(group, "server→wire", "multiget responses", map[bool]string{true: "fewer responses than requested hrefs", false: "more responses than requested hrefs"}[len(rp) < len(paths)], op, paths, rp, nil)
+	case "reordered":
+		wireOK = false
+		k.report(group, "server→wire", "multiget responses", "not in request order", op, paths, rp, nil)
+	case "path":
+		wireOK = false
+		k.report(group, "server→wire", "Path", classify(paths[at], rp[at]), op, paths[at], rp[at], nil)
+	}
+	if wireOK {
+		for i, p := range paths {
+			r := &ms.Responses[i]
+			o := w.obj(p)
+			if o == nil || o.Fail != 0 {
+				wantCode := 404
+				if o != nil {
+					wantCode = o.Fail
+				}
+				gotCode := 0
+				if r.Status != nil {
+					gotCode = r.Status.Code
+				}
+				k.c.Observe("multiget: per-href status on the wire", fmt.Sprintf("%s: backend %s -> wire %d", k.proto, map[bool]string{true: "plain error", false: strconv.Itoa(wantCode)}[wantCode == 1], gotCode), 1)
+				bad := len(r.PropStats) > 0 || r.Status == nil
+				if wantCode == 1 {
+					bad = bad || gotCode/100 == 2 // no status of its own: any failure status is accepted
+				} else {
+					bad = bad || gotCode != wantCode
+				}
+				if bad {
+					wireOK = false
+					t := "another status than the backend's"
+					if len(r.PropStats) > 0 {
+						t = "answered as a success"
+					}
+					k.report(group, "server→wire", "multiget per-href status", t, op, wantCode, gotCode, nil)
+				}
+				wireFields, wireObjs = append(wireFields, nil), append(wireObjs, nil)
+				continue
+			}
+			k.c.Observe("multiget: per-href status on the wire", k.proto+": object -> propstat", 1)
+			if r.Status != nil {
+				wireOK = false
+				k.report(group, "server→wire", "multiget per-href status", "object answered with a status instead of properties", op, "propstat", r.Status.Code, nil)
+				wireFields, wireObjs = append(wireFields, nil), append(wireObjs, nil)
+				continue
+			}
+			f, wo := read(r, o)
+			wireFields, wireObjs = append(wireFields, f), append(wireObjs, wo)
+		}
+	}
+	return wireOK, wireFields, wireObjs
+}
+
 // checkMultigetAt sends the multiget to the request path at: the collection,
 // or - RFC 4791 section 7.9 / RFC 6352 section 8.7 allow any Request-URI - a
 // requested object itself. An empty list stands for the request path (the
@@ -970,68 +1144,9 @@ func (k *chk) checkMultigetAt(w *world, at string, argPaths []string) {
 	var wireFields []map[string]string
 	var wireObjs []*nObj
 	if ms != nil {
-		var rp []string
-		for i := range ms.Responses {
-			p := ""
-			if len(ms.Responses[i].Paths) == 1 {
-				p = ms.Responses[i].Paths[0]
-			}
-			rp = append(rp, p)
-		}
-		_, problem, at := matchPaths(paths, rp)
-		switch problem {
-		case "count":
-			wireOK = false
-			k.report(group, "server→wire", "multiget responses", map[bool]string{true: "fewer responses than requested hrefs", false: "more responses than requested hrefs"}[len(rp) < len(paths)], op, paths, rp, nil)
-		case "reordered":
-			wireOK = false
-			k.report(group, "server→wire", "multiget responses", "not in request order", op, paths, rp, nil)
-		case "path":
-			wireOK = false
-			k.report(group, "server→wire", "Path", classify(paths[at], rp[at]), op, paths[at], rp[at], nil)
-		}
-		if wireOK {
-			for i, p := range paths {
-				r := &ms.Responses[i]
-				o := w.obj(p)
-				if o == nil || o.Fail != 0 {
-					wantCode := 404
-					if o != nil {
-						wantCode = o.Fail
-					}
-					gotCode := 0
-					if r.Status != nil {
-						gotCode = r.Status.Code
-					}
-					k.c.Observe("multiget: per-href status on the wire", fmt.Sprintf("%s: backend %s -> wire %d", k.proto, map[bool]string{true: "plain error", false: strconv.Itoa(wantCode)}[wantCode == 1], gotCode), 1)
-					bad := len(r.PropStats) > 0 || r.Status == nil
-					if wantCode == 1 {
-						bad = bad || gotCode/100 == 2 // no status of its own: any failure status is accepted
-					} else {
-						bad = bad || gotCode != wantCode
-					}
-					if bad {
-						wireOK = false
-						t := "another status than the backend's"
-						if len(r.PropStats) > 0 {
-							t = "answered as a success"
-						}
-						k.report(group, "server→wire", "multiget per-href status", t, op, wantCode, gotCode, nil)
-					}
-					wireFields, wireObjs = append(wireFields, nil), append(wireObjs, nil)
-					continue
-				}
-				k.c.Observe("multiget: per-href status on the wire", k.proto+": object -> propstat", 1)
-				if r.Status != nil {
-					wireOK = false
-					k.report(group, "server→wire", "multiget per-href status", "object answered with a status instead of properties", op, "propstat", r.Status.Code, nil)
-					wireFields, wireObjs = append(wireFields, nil), append(wireObjs, nil)
-					continue
-				}
-				f, wo := k.wireObject(r, o)
-				wireFields, wireObjs = append(wireFields, f), append(wireObjs, wo)
-			}
-		}
+		var ok bool
+		ok, wireFields, wireObjs = k.wireMultiget(w, group, op, ms, paths, k.wireObject)
+		wireOK = wireOK && ok
 	}
 	for _, p := range paths {
 		if o := w.obj(p); o != nil && o.Fail == 0 {
@@ -1172,7 +1287,7 @@ func (k *chk) checkPut(w *world) {
 	var err error
 	callPath := w.PutPath
 	if w.PutRel {
-		callPath = strings.TrimPrefix(w.PutPath, "/")
+		callPath = w.rel(w.PutPath)
 	}
 	if !k.guard(group, op, func() { got, err = k.st.put(callPath, &w.PutObj) }) {
 		return
